@@ -1,6 +1,9 @@
 import TexSoupProofs.Complete.RenameTree
 import TexSoupProofs.Complete.RenameEdit
 import TexSoupProofs.Complete.RenameSep
+import TexSoupProofs.Complete.SetStrTree
+import TexSoupProofs.Complete.SetStrSep
+import TexSoupProofs.Complete.SetArgs
 import TexSoupProofs.Properties.C16Grammar
 /-!
 # C14 for documents of the grammar – re-parsing the text of a renamed tree shows the same change
@@ -252,6 +255,270 @@ theorem rename_environment_reparse_of_source (tol : Bool) (skip : List Str) (d :
     (separated_squeeze_rename (sepOK_env hlold hgnew) (qok_env hrole hold hnews).ren
       hwf hsep (C16G.noBareSizing_spec hsz))
 
+/-! ## `node.string = s`
+
+`Gram.setStr r` replaces the contents of the single argument group of the selected commands,
+resp. the one-leaf body of the selected argument-less environments, by ONE text token `s`.
+No frame condition of the grammar looks at it (`WFD_setStr`: only "it is a `Text` token" is
+used), its tree is `mapSelL (strSel …) (strTop s np)` of the tree of `d` (`treeD_setStr`), which
+is the edit `.setString p s` of the edit model when the selection hits exactly the node at `p`
+(`Complete/MapSel.lean`). The implementation stores the new string without a position (`-1`),
+the re-parsed text has a real offset there: the conclusion compares trees without any position
+(`bareL`; `shapeL` keeps `-1`). Side condition on `s` for the text to be a tokenizer output:
+`goodText s` (first character not ignored; no character at which a text token ends: backslash,
+braces, brackets, `$`, `%`; no leading blank run that the tokenizer would split off).
+`s` may be blank-free or not, may contain letters directly after the opening brace: the token in
+front of it is the opener `{`/`[` resp. the `}` of `\begin{name}`, never a name. -/
+
+theorem bare_setBody_text (x : Expr) (s : Str) (a b : Int) :
+    bare (x.setBody [.text s a]) = bare (x.setBody [.text s b]) := by
+  cases x <;> simp [Expr.setBody, bare]
+
+theorem bare_strTop (s : Str) (a b : Int) (e : Expr) : bare (strTop s a e) = bare (strTop s b e) := by
+  cases e with
+  | cmd n as bd p =>
+    simp only [strTop, bare]
+    congr 1
+    induction as with
+    | nil => rfl
+    | cons x xs ih => simp [bare_setBody_text x s a b, ih]
+  | nenv n as bd p => simp [strTop, bare]
+  | _ => rfl
+
+/-- **General form**: selection `(qc, qe)` on (name, position); the tree with the new leaves at
+position `np`. -/
+theorem set_string_reparse_general (tol : Bool) (skip : List Str) (d : Doc)
+    (qc qe : Str → Int → Bool) (s : Str) (np : Nat)
+    (hwf : WFD (Tables.skipEnvNames ++ skip) d = true) (hen : envNamesPlainS d = true)
+    (hcn : cmdNamesPlainS d = true) (hq : SQ qc qe (Tables.skipEnvNames ++ skip))
+    (hsq : Separated none (toksD (squeezeD (setStrD (SetS.ofQ qc qe s np) d)))) :
+    ∃ t2, parse tol skip (serL (mapSelL (strSel qc qe) (strTop s np) (treeD d))) = .ok t2 ∧
+      shapeL t2 = shapeL (mapSelL (strSel qc qe) (strTop s np) (treeD d)) ∧
+      serL t2 = serL (mapSelL (strSel qc qe) (strTop s np) (treeD d)) := by
+  have hwf' := WFD_setStr (r := SetS.ofQ qc qe s np) rfl _ d hwf
+  have hen' : envNamesPlainS (setStrD (SetS.ofQ qc qe s np) d) = true := envNamesPlainS_setStr _ d hen
+  have h := C16G.reparse_fixed_point tol skip _ hwf' hen' hsq
+  rw [treeD_setStr d hwf hcn hen hq] at h
+  exact h
+
+/-- … for the tree of the edit model (new leaf at `-1`), up to positions. -/
+theorem set_string_reparse_edit (tol : Bool) (skip : List Str) (d : Doc) (p : Path) (t : Expr)
+    (qc qe : Str → Int → Bool) (s : Str)
+    (hwf : WFD (Tables.skipEnvNames ++ skip) d = true) (hen : envNamesPlainS d = true)
+    (hcn : cmdNamesPlainS d = true) (hq : SQ qc qe (Tables.skipEnvNames ++ skip))
+    (hp : p ≠ []) (hget : getAtRoot (treeD d) p = some t) (hsel : strSel qc qe t = true)
+    (hset : setStringE s t = some (strTop s (-1) t))
+    (huniq : cntSelL (strSel qc qe) (treeD d) = 1) (hroot : qe [] (-1) = false)
+    (hsq : Separated none (toksD (squeezeD (setStrD (SetS.ofQ qc qe s 0) d)))) :
+    ∃ t2, parse tol skip (serL (applyEdit (treeD d) (.setString p s))) = .ok t2 ∧
+      bareL t2 = bareL (applyEdit (treeD d) (.setString p s)) ∧
+      serL t2 = serL (applyEdit (treeD d) (.setString p s)) := by
+  have hpe : p.isEmpty = false := by cases p with
+    | nil => exact absurd rfl hp
+    | cons _ _ => rfl
+  have hupd := updAt_root_mapSel (strSel qc qe) (strTop s (-1)) (f := setStringE s) (treeD d) p t hget hsel
+    hset huniq (by simp [rootWrap, strSel, hroot])
+  have hT : applyEdit (treeD d) (.setString p s) = mapSelL (strSel qc qe) (strTop s (-1)) (treeD d) := by
+    simp only [applyEdit, applyEditE, hpe, hupd]
+    simp [rootWrap, Expr.body]
+  obtain ⟨t2, h1, h2, h3⟩ := set_string_reparse_general tol skip d qc qe s 0 hwf hen hcn hq hsq
+  have hb : bareL (mapSelL (strSel qc qe) (strTop s ((0 : Nat) : Int)) (treeD d)) =
+      bareL (mapSelL (strSel qc qe) (strTop s (-1)) (treeD d)) :=
+    bareL_mapSelL_congr _ _ _ (bare_strTop s _ _) _
+  rw [hT]
+  refine ⟨t2, ?_, ?_, ?_⟩
+  · rw [← serL_of_bareL_eq hb]; exact h1
+  · rw [← hb]; exact bareL_of_shapeL_eq h2
+  · rw [← serL_of_bareL_eq hb]; exact h3
+
+theorem sq_cmd {old : Str} {pos : Int} {skip : List Str} (hold : (old == sItem) = false) :
+    SQ (qAt old pos) qNone skip :=
+  ⟨fun p => by
+      simp only [qAt]
+      have : (sItem == old) = false := by
+        cases h : sItem == old with
+        | false => rfl
+        | true => rw [beq_iff_eq] at h; rw [← h] at hold; simp at hold
+      rw [this]; rfl,
+   fun _ _ h => (by cases h)⟩
+
+theorem sq_env {old : Str} {pos : Int} {skip : List Str} (hold : memStr old skip = false) :
+    SQ qNone (qAt old pos) skip :=
+  ⟨fun _ => rfl,
+   fun s p h => by
+      simp only [qAt, Bool.and_eq_true, beq_iff_eq] at h
+      rw [h.1]; exact hold⟩
+
+/-- **`node.string = s` on a single-argument command, then `str`, then parse**
+(hypothesis: the squeezed token list of the re-stringed document is a tokenizer output). -/
+theorem set_string_command_reparse (tol : Bool) (skip : List Str) (d : Doc) (p : Path)
+    (old : Str) (a : Expr) (b : List Expr) (pos : Int) (s : Str)
+    (hwf : WFD (Tables.skipEnvNames ++ skip) d = true) (hen : envNamesPlainS d = true)
+    (hcn : cmdNamesPlainS d = true) (hp : p ≠ [])
+    (hget : getAtRoot (treeD d) p = some (.cmd old [a] b pos)) (hold : (old == sItem) = false)
+    (huniq : cntSelL (strSel (qAt old pos) qNone) (treeD d) = 1)
+    (hsq : Separated none (toksD (squeezeD (setStrD (SetS.ofQ (qAt old pos) qNone s 0) d)))) :
+    ∃ t2, parse tol skip (serL (applyEdit (treeD d) (.setString p s))) = .ok t2 ∧
+      bareL t2 = bareL (applyEdit (treeD d) (.setString p s)) ∧
+      serL t2 = serL (applyEdit (treeD d) (.setString p s)) :=
+  set_string_reparse_edit tol skip d p _ (qAt old pos) qNone s hwf hen hcn (sq_cmd hold) hp hget
+    (by simp [strSel, qAt]) (by simp [setStringE, strTop]) huniq rfl hsq
+
+/-- **`node.string = s` on a text-only environment** (no arguments, one non-blank text). -/
+theorem set_string_environment_reparse (tol : Bool) (skip : List Str) (d : Doc) (p : Path)
+    (old u : Str) (pu pos : Int) (s : Str)
+    (hwf : WFD (Tables.skipEnvNames ++ skip) d = true) (hen : envNamesPlainS d = true)
+    (hcn : cmdNamesPlainS d = true) (hp : p ≠ [])
+    (hget : getAtRoot (treeD d) p = some (.nenv old [] [.text u pu] pos)) (hu : isBlank u = false)
+    (hpos : pos ≠ -1) (hold : memStr old (Tables.skipEnvNames ++ skip) = false)
+    (huniq : cntSelL (strSel qNone (qAt old pos)) (treeD d) = 1)
+    (hsq : Separated none (toksD (squeezeD (setStrD (SetS.ofQ qNone (qAt old pos) s 0) d)))) :
+    ∃ t2, parse tol skip (serL (applyEdit (treeD d) (.setString p s))) = .ok t2 ∧
+      bareL t2 = bareL (applyEdit (treeD d) (.setString p s)) ∧
+      serL t2 = serL (applyEdit (treeD d) (.setString p s)) :=
+  set_string_reparse_edit tol skip d p _ qNone (qAt old pos) s hwf hen hcn (sq_env hold) hp hget
+    (by simp [strSel, qAt, isOneText])
+    (by simp [setStringE, contentsOf, allOf, argsContents, dropBlank, Expr.isBlankText, hu, strTop,
+      Expr.setBody])
+    huniq (by simp only [qAt, Bool.and_eq_false_iff]; right; simpa using fun h => hpos h.symm) hsq
+
+/-- **… from the source**: `d` well-formed, its tokens a tokenizer output without a bare sizing
+prefix, environment names plain, `goodText s`. -/
+theorem set_string_command_reparse_of_source (tol : Bool) (skip : List Str) (d : Doc) (p : Path)
+    (old : Str) (a : Expr) (b : List Expr) (pos : Int) (s : Str)
+    (hwf : WFD (Tables.skipEnvNames ++ skip) d = true) (hen : envNamesPlainS d = true)
+    (hsep : Separated none (toksD d)) (hsz : C16G.noBareSizing (toksD d) = true) (hp : p ≠ [])
+    (hget : getAtRoot (treeD d) p = some (.cmd old [a] b pos)) (hold : (old == sItem) = false)
+    (huniq : cntSelL (strSel (qAt old pos) qNone) (treeD d) = 1) (hs : goodText s = true) :
+    ∃ t2, parse tol skip (serL (applyEdit (treeD d) (.setString p s))) = .ok t2 ∧
+      bareL t2 = bareL (applyEdit (treeD d) (.setString p s)) ∧
+      serL t2 = serL (applyEdit (treeD d) (.setString p s)) :=
+  set_string_command_reparse tol skip d p old a b pos s hwf hen (cmdNamesPlainS_of_separated hwf hsep hen)
+    hp hget hold huniq
+    (separated_squeeze_setStr ⟨rfl, hs⟩ hwf hsep (C16G.noBareSizing_spec hsz))
+
+theorem set_string_environment_reparse_of_source (tol : Bool) (skip : List Str) (d : Doc) (p : Path)
+    (old u : Str) (pu pos : Int) (s : Str)
+    (hwf : WFD (Tables.skipEnvNames ++ skip) d = true) (hen : envNamesPlainS d = true)
+    (hsep : Separated none (toksD d)) (hsz : C16G.noBareSizing (toksD d) = true) (hp : p ≠ [])
+    (hget : getAtRoot (treeD d) p = some (.nenv old [] [.text u pu] pos)) (hu : isBlank u = false)
+    (hpos : pos ≠ -1) (hold : memStr old (Tables.skipEnvNames ++ skip) = false)
+    (huniq : cntSelL (strSel qNone (qAt old pos)) (treeD d) = 1) (hs : goodText s = true) :
+    ∃ t2, parse tol skip (serL (applyEdit (treeD d) (.setString p s))) = .ok t2 ∧
+      bareL t2 = bareL (applyEdit (treeD d) (.setString p s)) ∧
+      serL t2 = serL (applyEdit (treeD d) (.setString p s)) :=
+  set_string_environment_reparse tol skip d p old u pu pos s hwf hen
+    (cmdNamesPlainS_of_separated hwf hsep hen) hp hget hu hpos hold huniq
+    (separated_squeeze_setStr ⟨rfl, hs⟩ hwf hsep (C16G.noBareSizing_spec hsz))
+
+/-! ## `node.args = [own arguments, reordered / sliced]`
+
+`Gram.setArgs r` gives the selected node the argument run `[args[i] for i in i1 ++ i2 ++ i3 ++ i4]`
+where the groups picked by `i1` are bracket groups, by `i2` brace groups, by `i3` bracket groups,
+by `i4` brace groups (`argSel`; for an environment `i1 = []`: the run behind `\begin{name}` is
+`{..}* [..]* {..}*`). This is the shape of run `read_args` reads: `[..]* {..}*` and then, directly
+behind a brace group, once more `[..]* {..}*` – a list whose kinds are not of this form is *not*
+read back as one run (`exInterleaved` below: `{a}[b]{c}[d]` – the fourth group stays text).
+The tree of the re-argumented document is the edit `.setArgs p (pick idx args)` of the edit model
+(`treeD_setArgs`, `updAt_root_mapSel`): same groups, same contents, same positions.
+
+Whether the run is read back *completely and alone* further depends on the signature of the name
+(a fixed signature takes a fixed number of groups) and on what follows the command (a following
+`[` / `{` would be absorbed or not, depending on what the run ends with): these are exactly the
+conditions `Gram.runOK` of the grammar, i.e. the well-formedness of the re-argumented document,
+which is a (decidable) hypothesis here (`hwf'`), as is `Separated` of its squeezed token list
+(slicing to the empty list may glue the name to a following letter: `exGlue`). -/
+
+theorem set_args_reparse_general (tol : Bool) (skip : List Str) (d : Doc)
+    (qc qe : Str → Int → Bool) (i1 i2 i3 i4 : List Nat)
+    (hwf : WFD (Tables.skipEnvNames ++ skip) d = true) (hen : envNamesPlainS d = true)
+    (hcn : cmdNamesPlainS d = true) (hq : SQ qc qe (Tables.skipEnvNames ++ skip))
+    (hwf' : WFD (Tables.skipEnvNames ++ skip) (setArgsD (SetA.ofQ qc qe i1 i2 i3 i4) d) = true)
+    (hsq : Separated none (toksD (squeezeD (setArgsD (SetA.ofQ qc qe i1 i2 i3 i4) d)))) :
+    ∃ t2, parse tol skip (serL (mapSelL (argSel qc qe i1 i2 i3 i4) (argTop (i1 ++ (i2 ++ (i3 ++ i4)))) (treeD d)))
+        = .ok t2 ∧
+      shapeL t2 = shapeL (mapSelL (argSel qc qe i1 i2 i3 i4) (argTop (i1 ++ (i2 ++ (i3 ++ i4)))) (treeD d)) ∧
+      serL t2 = serL (mapSelL (argSel qc qe i1 i2 i3 i4) (argTop (i1 ++ (i2 ++ (i3 ++ i4)))) (treeD d)) := by
+  have hen' : envNamesPlainS (setArgsD (SetA.ofQ qc qe i1 i2 i3 i4) d) = true :=
+    envNamesPlainS_setArgs _ d hen
+  have h := C16G.reparse_fixed_point tol skip _ hwf' hen' hsq
+  rw [treeD_setArgs d hwf hcn hen hq] at h
+  exact h
+
+/-- … for the edit model: `t` is the node at path `p`, the only applicable selected one. -/
+theorem set_args_reparse_edit (tol : Bool) (skip : List Str) (d : Doc) (p : Path) (t : Expr)
+    (qc qe : Str → Int → Bool) (i1 i2 i3 i4 : List Nat)
+    (hwf : WFD (Tables.skipEnvNames ++ skip) d = true) (hen : envNamesPlainS d = true)
+    (hcn : cmdNamesPlainS d = true) (hq : SQ qc qe (Tables.skipEnvNames ++ skip))
+    (hp : p ≠ []) (hget : getAtRoot (treeD d) p = some t) (hsel : argSel qc qe i1 i2 i3 i4 t = true)
+    (hset : setArgsE (pick (i1 ++ (i2 ++ (i3 ++ i4))) t.args) t = some (argTop (i1 ++ (i2 ++ (i3 ++ i4))) t))
+    (huniq : cntSelL (argSel qc qe i1 i2 i3 i4) (treeD d) = 1) (hroot : qe [] (-1) = false)
+    (hwf' : WFD (Tables.skipEnvNames ++ skip) (setArgsD (SetA.ofQ qc qe i1 i2 i3 i4) d) = true)
+    (hsq : Separated none (toksD (squeezeD (setArgsD (SetA.ofQ qc qe i1 i2 i3 i4) d)))) :
+    ∃ t2, parse tol skip (serL (applyEdit (treeD d) (.setArgs p (pick (i1 ++ (i2 ++ (i3 ++ i4))) t.args)))) = .ok t2 ∧
+      shapeL t2 = shapeL (applyEdit (treeD d) (.setArgs p (pick (i1 ++ (i2 ++ (i3 ++ i4))) t.args))) ∧
+      serL t2 = serL (applyEdit (treeD d) (.setArgs p (pick (i1 ++ (i2 ++ (i3 ++ i4))) t.args))) := by
+  have hpe : p.isEmpty = false := by cases p with
+    | nil => exact absurd rfl hp
+    | cons _ _ => rfl
+  have hupd := updAt_root_mapSel (argSel qc qe i1 i2 i3 i4) (argTop (i1 ++ (i2 ++ (i3 ++ i4))))
+    (f := setArgsE (pick (i1 ++ (i2 ++ (i3 ++ i4))) t.args)) (treeD d) p t hget hsel hset huniq
+    (by simp [rootWrap, argSel, hroot])
+  have hT : applyEdit (treeD d) (.setArgs p (pick (i1 ++ (i2 ++ (i3 ++ i4))) t.args)) =
+      mapSelL (argSel qc qe i1 i2 i3 i4) (argTop (i1 ++ (i2 ++ (i3 ++ i4)))) (treeD d) := by
+    simp only [applyEdit, applyEditE, hpe, hupd]
+    simp [rootWrap, Expr.body]
+  rw [hT]
+  exact set_args_reparse_general tol skip d qc qe i1 i2 i3 i4 hwf hen hcn hq hwf' hsq
+
+/-- **`node.args = [args[i] for i in i1 ++ i2 ++ i3 ++ i4]` on a command, then `str`, then parse.**
+The picked groups are brackets, braces, brackets, braces (`hk`), the re-argumented document is
+well-formed (`hwf'`: signature and following tokens admit the run) and its squeezed token list is a
+tokenizer output. -/
+theorem set_args_command_reparse (tol : Bool) (skip : List Str) (d : Doc) (p : Path)
+    (old : Str) (a b : List Expr) (pos : Int) (i1 i2 i3 i4 : List Nat)
+    (hwf : WFD (Tables.skipEnvNames ++ skip) d = true) (hen : envNamesPlainS d = true)
+    (hcn : cmdNamesPlainS d = true) (hp : p ≠ [])
+    (hget : getAtRoot (treeD d) p = some (.cmd old a b pos)) (hold : (old == sItem) = false)
+    (hk : ((pick i1 a).all (isGroupOf .bracket) && (pick i2 a).all (isGroupOf .brace)
+      && (pick i3 a).all (isGroupOf .bracket) && (pick i4 a).all (isGroupOf .brace)) = true)
+    (huniq : cntSelL (argSel (qAt old pos) qNone i1 i2 i3 i4) (treeD d) = 1)
+    (hwf' : WFD (Tables.skipEnvNames ++ skip) (setArgsD (SetA.ofQ (qAt old pos) qNone i1 i2 i3 i4) d) = true)
+    (hsq : Separated none (toksD (squeezeD (setArgsD (SetA.ofQ (qAt old pos) qNone i1 i2 i3 i4) d)))) :
+    ∃ t2, parse tol skip (serL (applyEdit (treeD d) (.setArgs p (pick (i1 ++ (i2 ++ (i3 ++ i4))) a)))) = .ok t2 ∧
+      shapeL t2 = shapeL (applyEdit (treeD d) (.setArgs p (pick (i1 ++ (i2 ++ (i3 ++ i4))) a))) ∧
+      serL t2 = serL (applyEdit (treeD d) (.setArgs p (pick (i1 ++ (i2 ++ (i3 ++ i4))) a))) :=
+  set_args_reparse_edit tol skip d p (.cmd old a b pos) (qAt old pos) qNone i1 i2 i3 i4 hwf hen hcn
+    (sq_cmd hold) hp hget
+    (by
+      simp only [Bool.and_eq_true] at hk
+      simp [argSel, qAt, hk.1.1.1, hk.1.1.2, hk.1.2, hk.2])
+    (by simp [setArgsE, argTop, Expr.args]) huniq rfl hwf' hsq
+
+/-- **… on an environment**: the run behind `\begin{name}` is braces, brackets, braces. -/
+theorem set_args_environment_reparse (tol : Bool) (skip : List Str) (d : Doc) (p : Path)
+    (old : Str) (a b : List Expr) (pos : Int) (i2 i3 i4 : List Nat)
+    (hwf : WFD (Tables.skipEnvNames ++ skip) d = true) (hen : envNamesPlainS d = true)
+    (hcn : cmdNamesPlainS d = true) (hp : p ≠ [])
+    (hget : getAtRoot (treeD d) p = some (.nenv old a b pos)) (hpos : pos ≠ -1)
+    (hold : memStr old (Tables.skipEnvNames ++ skip) = false)
+    (hk : ((pick i2 a).all (isGroupOf .brace) && (pick i3 a).all (isGroupOf .bracket)
+      && (pick i4 a).all (isGroupOf .brace)) = true)
+    (huniq : cntSelL (argSel qNone (qAt old pos) [] i2 i3 i4) (treeD d) = 1)
+    (hwf' : WFD (Tables.skipEnvNames ++ skip) (setArgsD (SetA.ofQ qNone (qAt old pos) [] i2 i3 i4) d) = true)
+    (hsq : Separated none (toksD (squeezeD (setArgsD (SetA.ofQ qNone (qAt old pos) [] i2 i3 i4) d)))) :
+    ∃ t2, parse tol skip (serL (applyEdit (treeD d) (.setArgs p (pick (i2 ++ (i3 ++ i4)) a)))) = .ok t2 ∧
+      shapeL t2 = shapeL (applyEdit (treeD d) (.setArgs p (pick (i2 ++ (i3 ++ i4)) a))) ∧
+      serL t2 = serL (applyEdit (treeD d) (.setArgs p (pick (i2 ++ (i3 ++ i4)) a))) := by
+  have h := set_args_reparse_edit tol skip d p (.nenv old a b pos) qNone (qAt old pos) [] i2 i3 i4 hwf hen hcn
+    (sq_env hold) hp hget
+    (by
+      simp only [Bool.and_eq_true] at hk
+      simp [argSel, qAt, hk.1.1, hk.1.2, hk.2])
+    (by simp [setArgsE, argTop, Expr.args]) huniq
+    (by simp only [qAt, Bool.and_eq_false_iff]; right; simpa using fun h => hpos h.symm) hwf' hsq
+  simpa [Expr.args] using h
+
 /-! ## Non-vacuity -/
 
 private def t (s : Str) (p : Nat) (c : TC) : Tok := ⟨s, p, c⟩
@@ -269,6 +536,11 @@ def exDoc : Doc :=
        .leaf (t [120] 21 .Text)]]
     (t [92] 22 .Escape) (t sEnd 23 .CommandName)
     ⟨none, t [123] 26 .GroupBegin, t [97] 27 .Text, t [125] 28 .GroupEnd⟩]
+
+/-- `\foo{a}` -/
+def exSig0 : Doc :=
+  [.cmd (t [92] 0 .Escape) (t sFoo 1 .CommandName) []
+    [.mk none (t [123] 4 .GroupBegin) [.leaf (t [97] 5 .Text)] (t [125] 6 .GroupEnd)] [] []]
 
 /-- rename the command `\foo` at offset 14 to `\bar` -/
 def exRen : Ren := Ren.ofQ (qAt sFoo 14) sBar qNone []
@@ -328,6 +600,147 @@ example : ∃ t2, parse false [] (serL (applyEdit (treeD exDoc) (.rename [.body 
   rename_environment_reparse_of_source false [] exDoc _ [97] [98] _ _ 0 (by decide) (by decide)
     (by decide +kernel) (by decide) (by decide) (by rfl) (by decide) (by decide) (by decide) (by decide)
     (by decide) (by decide) (by decide)
+
+/-! ### `node.string = s` -/
+
+/-- the new string `hi 1` -/
+def sHi : Str := [104, 105, 32, 49]
+
+example : goodText sHi = true ∧ cntSelL (strSel (qAt sFoo 14) qNone) (treeD exDoc) = 1 := by decide
+example : applyEdit (treeD exDoc) (.setString [.body 0, .body 0, .body 0] sHi) =
+    [.nenv [97] [] [.cmd sItem [] [.cmd sFoo [.group .brace [.text sHi (-1)] 18] [] 14, .text [120] 21] 9] 0] := by
+  rfl
+example : treeD (setStrD (SetS.ofQ (qAt sFoo 14) qNone sHi 0) exDoc) =
+    [.nenv [97] [] [.cmd sItem [] [.cmd sFoo [.group .brace [.text sHi 0] 18] [] 14, .text [120] 21] 9] 0] := by
+  rfl
+example : ∃ t2, parse false [] (serL (applyEdit (treeD exDoc) (.setString [.body 0, .body 0, .body 0] sHi))) = .ok t2 ∧
+    bareL t2 = bareL (applyEdit (treeD exDoc) (.setString [.body 0, .body 0, .body 0] sHi)) ∧
+    serL t2 = serL (applyEdit (treeD exDoc) (.setString [.body 0, .body 0, .body 0] sHi)) :=
+  set_string_command_reparse_of_source false [] exDoc _ sFoo _ _ 14 sHi (by decide) (by decide)
+    (by decide +kernel) (by decide) (by decide) (by rfl) (by decide) (by decide) (by decide)
+
+/-- `\begin{a}xy\end{a}z` – a text-only environment -/
+def exEnvT : Doc :=
+  [.env (t [92] 0 .Escape) (t sBegin 1 .CommandName)
+    ⟨none, t [123] 6 .GroupBegin, t [97] 7 .Text, t [125] 8 .GroupEnd⟩ [] [] []
+    [.leaf (t [120, 121] 9 .Text)]
+    (t [92] 11 .Escape) (t sEnd 12 .CommandName)
+    ⟨none, t [123] 15 .GroupBegin, t [97] 16 .Text, t [125] 17 .GroupEnd⟩,
+   .leaf (t [122] 18 .Text)]
+
+example : applyEdit (treeD exEnvT) (.setString [.body 0] sHi) =
+    [.nenv [97] [] [.text sHi (-1)] 0, .text [122] 18] := by rfl
+example : serL (applyEdit (treeD exEnvT) (.setString [.body 0] sHi)) =
+    [92, 98, 101, 103, 105, 110, 123, 97, 125, 104, 105, 32, 49, 92, 101, 110, 100, 123, 97, 125, 122] := by
+  decide
+example : ∃ t2, parse true [] (serL (applyEdit (treeD exEnvT) (.setString [.body 0] sHi))) = .ok t2 ∧
+    bareL t2 = bareL (applyEdit (treeD exEnvT) (.setString [.body 0] sHi)) ∧
+    serL t2 = serL (applyEdit (treeD exEnvT) (.setString [.body 0] sHi)) :=
+  set_string_environment_reparse_of_source true [] exEnvT _ [97] [120, 121] 9 0 sHi (by decide) (by decide)
+    (by decide +kernel) (by decide) (by decide) (by rfl) (by decide) (by decide) (by decide) (by decide)
+    (by decide)
+
+/-- `goodText s` is needed. The empty string: the edited tree holds an empty text leaf, the
+re-parsed group is empty. A closing brace: the group ends early. -/
+example : goodText [] = false ∧ goodText [125] = false := by decide
+example : applyEdit (treeD exSig0) (.setString [.body 0] []) =
+    [.cmd sFoo [.group .brace [.text [] (-1)] 4] [] 0] := by rfl
+example : parse false [] (serL (applyEdit (treeD exSig0) (.setString [.body 0] []))) =
+    .ok [.cmd sFoo [.group .brace [] 4] [] 0] := by rfl
+example : parse false [] (serL (applyEdit (treeD exSig0) (.setString [.body 0] [125]))) =
+    .ok [.cmd sFoo [.group .brace [] 4] [] 0, .text [125] 6] := by rfl
+
+/-! ### `node.args = …` -/
+
+/-- `\x[b][d]{a}{c}` -/
+def exArgs : Doc :=
+  [.cmd (t [92] 0 .Escape) (t [120] 1 .CommandName)
+    [.mk none (t [91] 2 .BracketBegin) [.leaf (t [98] 3 .Text)] (t [93] 4 .BracketEnd),
+     .mk none (t [91] 5 .BracketBegin) [.leaf (t [100] 6 .Text)] (t [93] 7 .BracketEnd)]
+    [.mk none (t [123] 8 .GroupBegin) [.leaf (t [97] 9 .Text)] (t [125] 10 .GroupEnd),
+     .mk none (t [123] 11 .GroupBegin) [.leaf (t [99] 12 .Text)] (t [125] 13 .GroupEnd)] [] []]
+
+example : WFD Tables.skipEnvNames exArgs = true ∧ Separated none (toksD exArgs) := by decide +kernel
+example : treeD exArgs = [.cmd [120] [.group .bracket [.text [98] 3] 2, .group .bracket [.text [100] 6] 5,
+    .group .brace [.text [97] 9] 8, .group .brace [.text [99] 12] 11] [] 0] := by rfl
+
+/-- the reversal `{c}{a}[d][b]` (indices 3,2 | 1,0: braces, then brackets directly behind) and the
+slice `[d]{a}` are read back -/
+example : ∃ t2, parse false [] (serL (applyEdit (treeD exArgs) (.setArgs [.body 0]
+      (pick ([] ++ ([3, 2] ++ ([1, 0] ++ []))) [.group .bracket [.text [98] 3] 2, .group .bracket [.text [100] 6] 5,
+        .group .brace [.text [97] 9] 8, .group .brace [.text [99] 12] 11])))) = .ok t2 ∧
+    shapeL t2 = shapeL (applyEdit (treeD exArgs) (.setArgs [.body 0]
+      (pick ([] ++ ([3, 2] ++ ([1, 0] ++ []))) [.group .bracket [.text [98] 3] 2, .group .bracket [.text [100] 6] 5,
+        .group .brace [.text [97] 9] 8, .group .brace [.text [99] 12] 11]))) ∧
+    serL t2 = serL (applyEdit (treeD exArgs) (.setArgs [.body 0]
+      (pick ([] ++ ([3, 2] ++ ([1, 0] ++ []))) [.group .bracket [.text [98] 3] 2, .group .bracket [.text [100] 6] 5,
+        .group .brace [.text [97] 9] 8, .group .brace [.text [99] 12] 11]))) :=
+  set_args_command_reparse false [] exArgs _ [120] _ [] 0 [] [3, 2] [1, 0] [] (by decide) (by decide)
+    (by decide) (by decide) (by rfl) (by decide) (by decide) (by decide) (by decide) (by decide +kernel)
+example : serL (applyEdit (treeD exArgs) (.setArgs [.body 0]
+      (pick [3, 2, 1, 0] [.group .bracket [.text [98] 3] 2, .group .bracket [.text [100] 6] 5,
+        .group .brace [.text [97] 9] 8, .group .brace [.text [99] 12] 11]))) =
+    [92, 120, 123, 99, 125, 123, 97, 125, 91, 100, 93, 91, 98, 93] := by decide
+example : ∃ t2, parse true [] (serL (applyEdit (treeD exArgs) (.setArgs [.body 0]
+      (pick ([1] ++ ([2] ++ ([] ++ []))) [.group .bracket [.text [98] 3] 2, .group .bracket [.text [100] 6] 5,
+        .group .brace [.text [97] 9] 8, .group .brace [.text [99] 12] 11])))) = .ok t2 ∧ True :=
+  let ⟨t2, h, _⟩ := set_args_command_reparse true [] exArgs _ [120] _ [] 0 [1] [2] [] [] (by decide) (by decide)
+    (by decide) (by decide) (by rfl) (by decide) (by decide) (by decide) (by decide) (by decide +kernel)
+  ⟨t2, h, trivial⟩
+
+/-- **The re-parse clause fails for an interleaved reordering**: `x.args = [args[2], args[0],
+args[3], args[1]]` prints `\x{a}[b]{c}[d]`; the reader takes `{a}[b]{c}` and leaves `[d]` as
+text. The kinds brace, bracket, brace, bracket are not of the form `[^k {^l [^m {^n`. -/
+def exInterleaved : List Expr :=
+  applyEdit (treeD exArgs) (.setArgs [.body 0]
+    (pick [2, 0, 3, 1] [.group .bracket [.text [98] 3] 2, .group .bracket [.text [100] 6] 5,
+      .group .brace [.text [97] 9] 8, .group .brace [.text [99] 12] 11]))
+
+example : exInterleaved = [.cmd [120] [.group .brace [.text [97] 9] 8, .group .bracket [.text [98] 3] 2,
+    .group .brace [.text [99] 12] 11, .group .bracket [.text [100] 6] 5] [] 0] := by rfl
+example : serL exInterleaved = [92, 120, 123, 97, 125, 91, 98, 93, 123, 99, 125, 91, 100, 93] := by decide
+theorem shapeL_length (es : List Expr) : (shapeL es).length = es.length := by
+  induction es with
+  | nil => rfl
+  | cons e es ih => simp [ih]
+
+/-- the text `\x{a}[b]{c}[d]` is read as a command with THREE arguments followed by three text
+leaves `[`, `d`, `]`; whatever tree it is, it has not the shape of the edited tree (one node). -/
+theorem interleaved_args_not_read_back :
+    (match parse false [] (serL exInterleaved) with
+      | .ok [.cmd _ a _ _, .text x _, .text y _, .text z _] => (a.length, x, y, z)
+      | _ => (0, [], [], [])) = (3, [91], [100], [93]) ∧
+    ∀ t2, parse false [] (serL exInterleaved) = .ok t2 → shapeL t2 ≠ shapeL exInterleaved := by
+  have hser : serL exInterleaved = [92, 120, 123, 97, 125, 91, 98, 93, 123, 99, 125, 91, 100, 93] := by decide
+  have hE : exInterleaved = [.cmd [120] [.group .brace [.text [97] 9] 8, .group .bracket [.text [98] 3] 2,
+      .group .brace [.text [99] 12] 11, .group .bracket [.text [100] 6] 5] [] 0] := by rfl
+  have hlen : (match parse false [] [92, 120, 123, 97, 125, 91, 98, 93, 123, 99, 125, 91, 100, 93] with
+      | .ok t => t.length
+      | .error _ => 0) = 4 := by decide +kernel
+  rw [hser]
+  refine ⟨by decide +kernel, ?_⟩
+  intro t2 h2 hs
+  rw [h2] at hlen
+  have := congrArg List.length hs
+  rw [shapeL_length, shapeL_length, hE] at this
+  simp at hlen
+  simp [hlen] at this
+/-- no split of the indices 2,0,3,1 has the kinds of a readable run, e.g. -/
+example : argSel (qAt [120] 0) qNone [] [2] [0] [3, 1] (.cmd [120] [.group .bracket [.text [98] 3] 2,
+    .group .bracket [.text [100] 6] 5, .group .brace [.text [97] 9] 8, .group .brace [.text [99] 12] 11] [] 0)
+    = false := by decide
+
+/-- `\x{a}b` with `x.args = []` prints `\xb`: another command (`hsq` fails). -/
+def exGlue : Doc :=
+  [.cmd (t [92] 0 .Escape) (t [120] 1 .CommandName) []
+    [.mk none (t [123] 2 .GroupBegin) [.leaf (t [97] 3 .Text)] (t [125] 4 .GroupEnd)] [] [],
+   .leaf (t [98] 5 .Text)]
+example : WFD Tables.skipEnvNames exGlue = true ∧ Separated none (toksD exGlue) ∧
+    WFD Tables.skipEnvNames (setArgsD (SetA.ofQ (qAt [120] 0) qNone [] [] [] []) exGlue) = true ∧
+    ¬ Separated none (toksD (squeezeD (setArgsD (SetA.ofQ (qAt [120] 0) qNone [] [] [] []) exGlue))) := by
+  decide +kernel
+example : parse false [] (serL (applyEdit (treeD exGlue) (.setArgs [.body 0] []))) =
+    .ok [.cmd [120, 98] [] [] 0] := by rfl
 
 /-! ### the side conditions are needed -/
 
